@@ -40,11 +40,9 @@ pub type ControlMessage = crate::socket::ControlMessage;
 pub type RecvMsg = crate::socket::RecvMsg;
 
 pub fn std_to_libc_in_addr(addr: net::Ipv4Addr) -> libc::in_addr {
+    /* s_addr is in network byte order: the octets in memory in the order they are written. */
     libc::in_addr {
-        s_addr: addr
-            .octets()
-            .iter()
-            .fold(0, |acc, x| (acc << 8) | (*x as u32)),
+        s_addr: u32::from_ne_bytes(addr.octets()),
     }
 }
 
